@@ -14,7 +14,9 @@ func (x *fnExec) execInstr(st *State, in ssa.Instruction) bool {
 	v := x.v
 	switch i := in.(type) {
 	case *ssa.DebugRef:
-		x.debugRef(st, i)
+		if len(st.inline) == 0 {
+			x.debugRef(st, i)
+		}
 	case *ssa.Phi:
 		// handled at block entry
 	case *ssa.Jump, *ssa.If:
@@ -311,6 +313,19 @@ func (x *fnExec) execInstr(st *State, in ssa.Instruction) bool {
 		}
 		st.defers = nil
 	case *ssa.Return:
+		if n := len(st.inline); n > 0 {
+			// return of an inlined call: bind the results at the call site and go on in the caller
+			call := st.inline[n-1]
+			st.inline = st.inline[: n-1 : n-1]
+			var res []Term
+			for _, r := range i.Results {
+				res = append(res, x.val(st, r))
+			}
+			x.bindResults(st, call, res)
+			x.checkEffects(st, call)
+			x.continueAfter(st, call)
+			return false
+		}
 		x.execReturn(st, i)
 		return false
 	case *ssa.Panic:
